@@ -17,7 +17,7 @@
                                           ind (push_str st f) = ind st                                    *)
 From Coq Require Import List Ascii Bool.
 From WB Require Import Core.Source Core.SourceSpec Core.SourceProofs Core.SourceLiteral Core.SourceIndent
-  Core.SourceBalanced Core.SourceLayout Core.SourceExamples.
+  Core.SourceBalanced Core.SourceLayout Core.SourceInert Core.SourceExamples.
 Import ListNotations.
 
 (** ** text_preserved *)
@@ -76,6 +76,15 @@ Theorem C25_indent_follows_braces_layout_partial : forall frags t d,
   exists st outs, run_b source_default (map Push frags) = Some (st, outs) /\ as_str st = t /\ ind st = d.
 Proof. exact indent_layout_whole_lines. Qed.
 
+(** A brace-neutral one-line piece ([inert]: no '\n'; trimmed, it neither starts with '}' or "//" nor ends
+    with '{') appended in ANY state only appends — behind the indentation when it starts a line — and leaves
+    indentation level and comment state alone.  Non-vacuity: [inert_demo]. *)
+Theorem C25_inert_piece : forall st p,
+  inert p = true -> p <> [] ->
+  push_str st p = mkSource (rev p ++ (if continuing st then rbuf st else spaces (2 * ind st) ++ rbuf st))
+                           (ind st) (in_comment st) true.
+Proof. exact push_inert_piece. Qed.
+
 Theorem C25_indent_follows_braces_refuted : ~ indent_follows_braces_full.
 Proof. exact indent_follows_braces_full_false. Qed.
 
@@ -110,6 +119,7 @@ Print Assumptions C25_text_preserved_refuted.
 Print Assumptions C25_indent_block.
 Print Assumptions C25_indent_follows_braces_partial.
 Print Assumptions C25_indent_follows_braces_layout_partial.
+Print Assumptions C25_inert_piece.
 Print Assumptions C25_indent_follows_braces_refuted.
 Print Assumptions C25_literal_transparent.
 Print Assumptions C25_balanced_restores_indent_partial.
